@@ -63,6 +63,8 @@ def handle (j : J) : Except String J := do
       | "okReadonly" => pure Crud.okReadonly
       | "okMatch" => pure Crud.okMatch
       | "createRetry" => pure Crud.createRetry
+      | "deletedAbsent" => pure Crud.deletedAbsent
+      | "deleting" => pure Crud.deleting
       | s => throw s!"bad crud {s}"
     let lk ← match (j.getD "lookup").str? with
       | some "found" => pure Lookup.found
